@@ -106,6 +106,26 @@ def classify(op, out):
     return "law"
 
 
+def gen_pb(rng, tier):
+    """text payloads and timestamps across the gRPC conversion: every ASCII control character, quotes, backslashes, HTML-sensitive
+    characters, line separators, characters of every UTF-8 length, random mixtures"""
+    def hx(t):
+        return "x" + t.encode("utf-8").hex()
+    specials = [chr(i) for i in range(0, 0x21)] + ['"', "\\", "/", "<", ">", "&", "\x7f", "\u2028", "\u2029", "\u00e9", "\u0416", "\u4e2d", "\U0001F600",
+                                                   "\U000e0001", "\ufffd", "a", "Z", "0"]
+    for ch in specials:
+        for t in (ch, "a" + ch + "b", ch * 3):
+            yield "pb.bytes " + hx(t)
+            yield "pb.rt " + hx(t)
+    for _ in range(4000 if tier == "thorough" else 500):
+        t = "".join(rng.choice(specials) for _ in range(rng.below(24)))
+        yield ("pb.rt " if rng.chance(1, 2) else "pb.bytes ") + hx(t)
+    for ms in [0, 1, 2, 999, 1000, 1001, 1500, 59999, 86399999, 1700000000123, 1700000000999, 9214646400000]:
+        yield f"pb.time {ms}"
+    for _ in range(400 if tier == "thorough" else 60):
+        yield f"pb.time {rng.below(2 ** 41)}"
+
+
 PROP = dict(
     id="C20",
     level_text="Kernel-checked Lean theorems for all 64-bit ids: base64 text round trip, canonicity of the strict decoder (no other "
@@ -113,20 +133,26 @@ PROP = dict(
                "database form, symmetry/injectivity/decoding of peer-to-peer names, group/channel spelling inverse. Tied to "
                "types.go/uidgen.go by differential runs over boundary and random ids and all single-character mutations of encodings.",
     level_note="Trusted: Lean kernel; Model/Uid.lean (arithmetical base64/base32/XTEA) is tied to the code by the differential run, "
-               "not by construction; ids are sampled (boundary + random), strings near encodings enumerated. The protobuf/JSON "
-               "equivalence clause of C20 is covered only when the pb streams are present in this check's evidence.",
+               "not by construction; ids are sampled (boundary + random), strings near encodings enumerated. PARTIAL for the "
+               "protobuf clause: text payloads (json.Marshal's string escaping against json.Unmarshal, proved a round trip for every "
+               "string of Unicode characters) and millisecond timestamps are modelled and tied by the `pb` stream; the field-by-field "
+               "mapping of the ten message kinds is not. Found and repaired: timestamps received over gRPC lost their milliseconds "
+               "(fix: 1907ecf).",
     technique="Lean 4 proof (omega over byte/sextet arithmetic, BitVec add/sub cancellation, list induction) + differential correspondence",
-    modules=["TinodeVerif.Props.C20"],
+    modules=["TinodeVerif.Props.C20", "TinodeVerif.Props.C20b"],
     theorems=[T + n for n in ["uid_b64_roundtrip", "uid_zero_text", "uid_decode_canonical", "user_id_roundtrip", "chn_grp_inverse",
                               "p2p_sym", "p2p_parse", "p2p_inj", "p2p_name_for_user", "xtea_roundtrip", "uid_db_roundtrip",
-                              "db_uid_roundtrip", "uid_b32_roundtrip"]],
-    streams=[dict(name="uid", pkg="types", gen=gen_uid, classify=classify)],
+                              "db_uid_roundtrip", "uid_b32_roundtrip", "hex_roundtrip", "unquote_uEscape", "unquote_escape",
+                              "text_survives_wire", "time_roundtrip"]],
+    streams=[dict(name="uid", pkg="types", gen=gen_uid, classify=classify),
+             dict(name="pb", pkg="main", gen=gen_pb, classify=lambda o, i: o.split(" ")[0])],
     seeds=dict(quick=1, thorough=3),
     rule="boundary and random 64-bit ids through every codec; for sampled ids every string differing from the canonical base64 "
          "text in the last character (all 64) and random single-character mutations, truncations, extensions, newline insertions; "
          "p2p names for random pairs and all last-character mutations; group/channel spellings incl. bodies containing a prefix; "
          "database form under 8 XTEA keys; non-trivial = every case except `trivial`",
     assumptions=["ids are 64-bit; strings are byte strings (Latin-1 in the model)",
+                 "timestamps lie before the year 2262: timeToInt64 goes through UnixNano (int64 nanoseconds), the model uses unbounded naturals",
                  "the id generator never issues the single value encrypt(0) (uid_db_roundtrip excludes it)"],
     trusted=["golang.org/x/crypto/xtea and encoding/base64, base32 are modelled arithmetically (tied by the differential run)"],
 )
